@@ -19,7 +19,8 @@ package c12
 //
 // ops (diffed against LinVerif.TimePlan.calcPlan):
 //   `calc <ivs,..> <start> <end> <interval> <auto>` -> `plan <start> <end> <interval> <storage> <ratio>`
-//   once for the root's pass and once for the intermediate's pass (input = what the root sent).
+//   for the root's pass; `recalc <same> <storage> <ratio>` for the intermediate's pass (input = what
+//   the root sent, already planned).
 // impl-side oracle: the statement a leaf receives through the intermediate = the statement a leaf
 // receives from the root directly (key `intermediate-changes-leaf-time-plan`), and the buckets the
 // same points fall into are the same (part of the message).
@@ -336,7 +337,8 @@ func tpCheckW(c *core.Ctx, in tpInput, rng *rand.Rand, witness bool) {
 		viaPlan = via[l]
 		break
 	}
-	c.Op(interIn.op(), viaPlan.String())
+	// `recalc`: the statement arrives planned (storage interval and ratio set)
+	c.Op(fmt.Sprintf("re%s %d %d", interIn.op(), rootOut.Storage, rootOut.Ratio), viaPlan.String())
 
 	// sample points around the range to show the buckets
 	var pts []int64
